@@ -86,6 +86,9 @@ def c05(run, scratch):
                 run.violation(clause, {'mode': mode, 'pseudo': it['m'], 'kind': it['k']},
                               {'source': rec['src'] if len(rec['src']) < 600 else rec['src'].splitlines()[idx - 1], 'item': it, 'mode': mode,
                                'emitted_halfwords': [hex(h) for h in obs['hw'][idx - 1]], 'labels': obs['labels']})
+    # pseudo-branches / j / jal against their documented base instruction in whole programs (range edges)
+    import checks_layout
+    checks_layout.pseudo_spelling(run, scratch)
     names = {'nop', 'li', 'mv', 'not', 'neg', 'seqz', 'snez', 'sltz', 'sgtz', 'beqz', 'bnez', 'blez', 'bgez', 'bltz', 'bgtz',
              'bgt', 'ble', 'bgtu', 'bleu', 'pj:j', 'pj:jal', 'jr', 'jalr', 'ret', 'pj:call', 'pj:tail', 'fence'}
     if not names <= kinds:
